@@ -26,7 +26,8 @@ add={
 }
 
 add2={
-'C01':"Round-3 follow-up: switches on narrow controlling expressions with labels outside the narrow type (labels convert to the PROMOTED type) in both generators.",
+'C04':"Thorough tier: random programs are kept only if a UBSan/ASan build agrees with the reference; a native mismatch it found (gen3, -O1 and up) was a genuine back-end defect (read-modify-write destinations not declared written: fix 7a466f1) with an instruction-level witness that runs every time.",
+'C01':"Round-3 follow-up: switches on narrow controlling expressions with labels outside the narrow type (labels convert to the PROMOTED type) in both generators. Known: `for (T i = …)` declaration hoisting; unsuffixed decimal constants beyond `int` typed unsigned (found in the last hours, repair drafted in `fixes/deferred/`, not applied).",
 'C02':"Round-3 follow-up: 84 deterministic triangle/diamond/chain modules with 1–3 phis of mixed agreement through every pass and the pipeline (`c02_cfgfam.py`).",
 'C03':"Round-3 follow-up: 12 constant-cjump shapes (plain block, loop header with back edge, shared block, nested header) through every pass; the pass list is completed by scanning `ppci.opt` for pass subclasses.",
 'C06':"Round-3: a thorough-tier alarm on avr frames was a false alarm of `check_spill` (avr spill code writes the physical scratch pair Z); the validator now lets inserted code write physical registers, treats them and their aliases as unknown until rewritten, and `c06_check_spill_sound` is re-proved for the weaker relation.",
